@@ -71,7 +71,113 @@ CLAIM = ("Every generated reduction/aggregation was computed by the real dask.da
 LEVEL_NOTE = "pandas is the reference; domain limited to the operations and options the statement names"
 TECHNIQUE = "runtime monitoring: pandas differential oracle over a complete small partitioning space + random frames"
 CASE_TIMEOUT = 120
-PENDING = {}
+# genuine defects reproduced on the unchanged tree and replayed by hand: see findings_proposed/C37.md (R1..R9)
+PENDING = {
+    'any/all:axis=1&nullable-column&skipna=False:ValueError@dataframe/utils.py:raise_on_meta_error':
+        'R6: any/all(skipna=False) with a nullable column raises / answers False where pandas answers <NA>',
+    'any/all:frame&nullable-column&skipna=False&multi-partition:ValueError@dataframe/dask_expr/_reductions.py:chunk':
+        'R6: any/all(skipna=False) with a nullable column raises / answers False where pandas answers <NA>',
+    'any/all:frame&nullable-column&skipna=False:ValueError@utils.py:__call__':
+        'R6: any/all(skipna=False) with a nullable column raises / answers False where pandas answers <NA>',
+    'any/all:multi-column&nullable-column&skipna=False&all-NA-partition:TypeError@dataframe/dask_expr/_reductions.py:chunk':
+        'R6: any/all(skipna=False) with a nullable column raises / answers False where pandas answers <NA>',
+    'any/all:multi-column&nullable-column&skipna=False&multi-partition:TypeError@dataframe/dask_expr/_reductions.py:chunk':
+        'R6: any/all(skipna=False) with a nullable column raises / answers False where pandas answers <NA>',
+    'any/all:multi-column&nullable-column&skipna=False:TypeError@utils.py:__call__':
+        'R6: any/all(skipna=False) with a nullable column raises / answers False where pandas answers <NA>',
+    'any/all:series&nullable-column&skipna=False:lost-NA':
+        'R6: any/all(skipna=False) with a nullable column raises / answers False where pandas answers <NA>',
+    'cov/corr:frame&datetime-column:TypeError@dataframe/dask_expr/_collection.py:_prepare_cov_corr':
+        'R7: corr(numeric_only=True) validates its meta with DataFrame.cov, which refuses frames holding a datetime column',
+    'describe:datetime-column:rows':
+        "R7: describe of a datetime column has no 'mean' row",
+    'describe:nullable-column:TypeError@array/percentile.py:_percentile':
+        'R6: describe of a nullable column raises in dask.array.percentile / float64 instead of Float64',
+    'describe:nullable-column:dtype':
+        'R6: describe of a nullable column raises in dask.array.percentile / float64 instead of Float64',
+    'idxmin/idxmax:all-NA-partition:ValueError@dataframe/dask_expr/_reductions.py:chunk':
+        "R3: one all-NA partition makes idxmin/idxmax raise 'Encountered all NA values'",
+    'idxmin/idxmax:axis=1&nullable-column&skipna=False:ValueError@dataframe/utils.py:raise_on_meta_error':
+        'R3: meta is computed on meta_nonempty data that contains NA -> skipna=False / axis=1 raise before any data is read',
+    'idxmin/idxmax:axis=1&nullable-column:ValueError@dataframe/utils.py:raise_on_meta_error':
+        'R3: meta is computed on meta_nonempty data that contains NA -> skipna=False / axis=1 raise before any data is read',
+    'idxmin/idxmax:frame&datetime-column&numeric_only=True:ValueError@dataframe/core.py:idxmaxmin_agg':
+        'R9: numeric_only=True leaving no column raises instead of the empty Series',
+    'idxmin/idxmax:frame&nullable-column&multi-partition:values':
+        "R3: wrong label for a nullable boolean column next to a float column (object 'value' column in idxmaxmin_row)",
+    'idxmin/idxmax:frame&str-column&numeric_only=True:ValueError@dataframe/core.py:idxmaxmin_agg':
+        'R9: numeric_only=True leaving no column raises instead of the empty Series',
+    'idxmin/idxmax:nullable-column&skipna=False:ValueError@dataframe/core.py:idxmaxmin_chunk':
+        'R3: meta is computed on meta_nonempty data that contains NA -> skipna=False / axis=1 raise before any data is read',
+    'idxmin/idxmax:str-column&skipna=False:ValueError@dataframe/core.py:idxmaxmin_chunk':
+        'R3: meta is computed on meta_nonempty data that contains NA -> skipna=False / axis=1 raise before any data is read',
+    'idxmin/idxmax:unsorted-columns:index':
+        'R3: result index is sorted alphabetically (groupby(level=0) in idxmaxmin_combine), pandas keeps column order; fix proposed',
+    'mean:axis=1&nullable-column&skipna=False:ValueError@dataframe/utils.py:raise_on_meta_error':
+        'R6: row-wise mean(skipna=False) with a nullable column: meta inference fails',
+    'mean:datetime-column:TypeError@dataframe/dask_expr/_reductions.py:chunk':
+        'R7: mean of a datetime column raises (lowered to sum/count)',
+    'min/max:axis=1&nullable-column&skipna=False:ValueError@dataframe/utils.py:raise_on_meta_error':
+        "R6: skipna=False with a nullable column raises 'boolean value of NA is ambiguous' / meta inference fails",
+    'min/max:empty-partition:dtype':
+        'R5: an empty (or all-NA) partition turns the result dtype into float64/object',
+    'min/max:frame&empty-partition:dtype':
+        'R5: an empty (or all-NA) partition turns the result dtype into float64/object',
+    'min/max:frame&skipna=False&empty-partition:spurious-NA':
+        'R1: skipna=False and an empty partition -> NaN (chunk result of the empty partition poisons the combine)',
+    'min/max:multi-column&datetime-column&empty-partition:TypeError@dataframe/dask_expr/_reductions.py:combine|aggregate':
+        "R5: an empty partition's NaN chunk result makes min/max of a str/datetime column raise TypeError",
+    'min/max:multi-column&datetime-column&skipna=False&empty-partition:values':
+        'R2: skipna=False over object-dtype chunk rows (mixed column kinds) loses NaN / returns a wrong extreme',
+    'min/max:multi-column&nullable-column&skipna=False&empty-partition:TypeError@dataframe/dask_expr/_reductions.py:combine|aggregate':
+        "R6: skipna=False with a nullable column raises 'boolean value of NA is ambiguous' / meta inference fails",
+    'min/max:multi-column&nullable-column&skipna=False&multi-partition:TypeError@dataframe/dask_expr/_reductions.py:combine|aggregate':
+        "R6: skipna=False with a nullable column raises 'boolean value of NA is ambiguous' / meta inference fails",
+    'min/max:multi-column&skipna=False&empty-partition:values':
+        'R2: skipna=False over object-dtype chunk rows (mixed column kinds) loses NaN / returns a wrong extreme',
+    'min/max:multi-column&skipna=False&multi-partition:lost-NA':
+        'R2: skipna=False over object-dtype chunk rows (mixed column kinds) loses NaN / returns a wrong extreme',
+    'min/max:multi-column&str-column&empty-partition:TypeError@dataframe/dask_expr/_reductions.py:combine|aggregate':
+        "R5: an empty partition's NaN chunk result makes min/max of a str/datetime column raise TypeError",
+    'min/max:multi-column&str-column&skipna=False&multi-partition:lost-NA':
+        'R2: skipna=False over object-dtype chunk rows (mixed column kinds) loses NaN / returns a wrong extreme',
+    'min/max:series&nullable-column&empty-frame&skipna=False:TypeError@dataframe/dask_expr/_reductions.py:combine|aggregate':
+        "R6: skipna=False with a nullable column raises 'boolean value of NA is ambiguous' / meta inference fails",
+    'min/max:series&nullable-column&skipna=False&empty-partition:TypeError@dataframe/dask_expr/_reductions.py:combine|aggregate':
+        "R6: skipna=False with a nullable column raises 'boolean value of NA is ambiguous' / meta inference fails",
+    'min/max:series&nullable-column&skipna=False&multi-partition:TypeError@dataframe/dask_expr/_reductions.py:combine|aggregate':
+        "R6: skipna=False with a nullable column raises 'boolean value of NA is ambiguous' / meta inference fails",
+    'min/max:series&nullable-column&split_every-tree&all-NA-partition:dtype':
+        'R5: an empty (or all-NA) partition turns the result dtype into float64/object',
+    'min/max:skipna=False&empty-partition:spurious-NA':
+        'R1: skipna=False and an empty partition -> NaN (chunk result of the empty partition poisons the combine)',
+    'mode:categorical-column&empty-frame:length':
+        'R9: mode of an EMPTY categorical column returns all categories (count 0 == max 0)',
+    'mode:frame&categorical-column&numeric_only=True:ValueError@dataframe/dask_expr/_collection.py:concat':
+        "R9: mode(numeric_only=True) on a frame without numeric columns raises 'No objects to concatenate'",
+    'mode:frame&datetime-column&numeric_only=True:ValueError@dataframe/dask_expr/_collection.py:concat':
+        "R9: mode(numeric_only=True) on a frame without numeric columns raises 'No objects to concatenate'",
+    'mode:frame&str-column&numeric_only=True:ValueError@dataframe/dask_expr/_collection.py:concat':
+        "R9: mode(numeric_only=True) on a frame without numeric columns raises 'No objects to concatenate'",
+    'nlargest/nsmallest:multi-column&nullable-column&multi-partition:index':
+        'R6: DataFrame.nlargest ordered by a nullable column differs from pandas across partitions',
+    'sem:axis=1&nullable-column:ValueError@dataframe/utils.py:raise_on_meta_error':
+        'R6: row-wise sem/std with a nullable column: meta inference fails',
+    'std:series&datetime-column&ddof!=1:TypeError@dataframe/utils.py:_nonempty_scalar':
+        "R7: std(ddof!=1) of a datetime column: meta is NaT -> 'Can't handle meta of type NaTType'",
+    'value_counts:sort-omitted:order':
+        'R4: Series.value_counts() default is not sorted by count (pandas default sort=True)',
+    'var:ddof>=count:lost-NA':
+        'R8: ddof >= number of valid rows gives inf/negative instead of NaN',
+    'var:frame&nullable-column:TypeError@dataframe/dask_expr/_reductions.py:reduction_chunk':
+        "R6: var/std/sem of a frame holding a nullable column: TypeError on pd.NA (values.astype('f8')) or float64 instead of Float64",
+    'var:frame&nullable-column:dtype':
+        "R6: var/std/sem of a frame holding a nullable column: TypeError on pd.NA (values.astype('f8')) or float64 instead of Float64",
+    'var:multi-column&nullable-column:TypeError@dataframe/dask_expr/_reductions.py:reduction_chunk':
+        "R6: var/std/sem of a frame holding a nullable column: TypeError on pd.NA (values.astype('f8')) or float64 instead of Float64",
+    'var:skipna=False&split_every-tree&empty-partition:spurious-NA':
+        'R1: var/std/sem skipna=False, tree reduction and an empty partition -> NaN (0/0 in moment_combine)',
+}
 
 SKIPNA_OPS = ("sum", "prod", "min", "max", "mean", "var", "std", "sem", "any", "all", "idxmin", "idxmax")
 OTHER_OPS = ("count", "nunique", "value_counts", "mode", "nlargest", "nsmallest", "describe", "cov", "corr", "len")
@@ -150,7 +256,7 @@ def cases(tier, seed):
                 if not (op == "value_counts" and target == "frame"):
                     yield _fixed_case(op, target, cols, part, {})
     # ---- random -----------------------------------------------------------------------
-    k = 3000 if tier == "quick" else 60000
+    k = 3000 if tier == "quick" else 40000
     for _ in range(k):
         yield _rand_case(rng)
 
